@@ -66,31 +66,38 @@ theorem ntop4Text_no_nul (a : Bytes) : ∀ x ∈ ntop4Text a, x ≠ 0 := by
     | exact dec3_no_nul _ x h
     | (subst h; decide)
 
+theorem pton4Go_ntop4 (a b c d : Nat) (ha : a < 256) (hb : b < 256) (hc : c < 256) (hd : d < 256) :
+    pton4Go P4.init (ntop4Text [a, b, c, d]) = some ⟨true, 4, [a, b, c], d⟩ := by
+  have htxt : ntop4Text [a, b, c, d] =
+      dec3 a ++ (cDot :: (dec3 b ++ (cDot :: (dec3 c ++ (cDot :: dec3 d))))) := by
+    simp [ntop4Text]
+  rw [htxt]
+  unfold P4.init
+  rw [pton4Go_dec3 a ha 0 [] _ (by omega)]
+  simp only [Nat.reduceAdd]
+  rw [pton4Go_cons _ _ _ _ (step_dot 1 [] a (by omega))]
+  rw [pton4Go_dec3 b hb 1 _ _ (by omega)]
+  simp only [Nat.reduceAdd]
+  rw [pton4Go_cons _ _ _ _ (step_dot 2 _ b (by omega))]
+  rw [pton4Go_dec3 c hc 2 _ _ (by omega)]
+  simp only [Nat.reduceAdd]
+  rw [pton4Go_cons _ _ _ _ (step_dot 3 _ c (by omega))]
+  have := pton4Go_dec3 d hd 3 ([] ++ [a] ++ [b] ++ [c]) [] (by omega)
+  rw [List.append_nil] at this
+  rw [this]
+  simp [pton4Go]
+
 /-- `inet_pton4(inet_ntop4(a)) = a` for every IPv4 address -/
 theorem pton4_ntop4 (a b c d : Nat) (ha : a < 256) (hb : b < 256) (hc : c < 256) (hd : d < 256) (t : Bytes) :
     pton4 (ntop4Text [a, b, c, d] ++ 0 :: t) = some [a, b, c, d] := by
   unfold pton4
-  rw [cstr_append_nul _ _ (ntop4Text_no_nul _)]
-  have hgo : pton4Go P4.init (ntop4Text [a, b, c, d]) = some ⟨true, 4, [a, b, c], d⟩ := by
-    have htxt : ntop4Text [a, b, c, d] =
-        dec3 a ++ (cDot :: (dec3 b ++ (cDot :: (dec3 c ++ (cDot :: dec3 d))))) := by
-      simp [ntop4Text]
-    rw [htxt]
-    unfold P4.init
-    rw [pton4Go_dec3 a ha 0 [] _ (by omega)]
-    simp only [Nat.reduceAdd]
-    rw [pton4Go_cons _ _ _ _ (step_dot 1 [] a (by omega))]
-    rw [pton4Go_dec3 b hb 1 _ _ (by omega)]
-    simp only [Nat.reduceAdd]
-    rw [pton4Go_cons _ _ _ _ (step_dot 2 _ b (by omega))]
-    rw [pton4Go_dec3 c hc 2 _ _ (by omega)]
-    simp only [Nat.reduceAdd]
-    rw [pton4Go_cons _ _ _ _ (step_dot 3 _ c (by omega))]
-    have := pton4Go_dec3 d hd 3 ([] ++ [a] ++ [b] ++ [c]) [] (by omega)
-    rw [List.append_nil] at this
-    rw [this]
-    simp [pton4Go]
-  rw [hgo]; simp
+  rw [cstr_append_nul _ _ (ntop4Text_no_nul _), pton4Go_ntop4 a b c d ha hb hc hd]; simp
+
+/-- the same on the bare text (as `inet_pton6` calls it on the tail of its input) -/
+theorem pton4_ntop4_bare (a b c d : Nat) (ha : a < 256) (hb : b < 256) (hc : c < 256) (hd : d < 256) :
+    pton4 (ntop4Text [a, b, c, d]) = some [a, b, c, d] := by
+  unfold pton4
+  rw [cstr_of_no_nul _ (ntop4Text_no_nul _), pton4Go_ntop4 a b c d ha hb hc hd]; simp
 
 /-! ## soundness of pton4: four bytes -/
 
